@@ -163,6 +163,13 @@ Theorem C18_duplicate_submodule_field : forall self m nodes links gates subs,
 Proof. exact duplicate_submodule_field_error. Qed.
 Print Assumptions C18_duplicate_submodule_field.
 
+(* ... for ALL pairs: wherever the two fields sit among own and inherited fields, whatever lies between them *)
+Theorem C18_duplicate_field_any_position : forall pre a mid b post,
+  fd_ident (fst a) = fd_ident (fst b) -> same_shape (fd_kard (fst a)) (fd_kard (fst b)) = true ->
+  has_dup_field (pre ++ a :: mid ++ b :: post) = true.
+Proof. exact has_dup_field_any_position. Qed.
+Print Assumptions C18_duplicate_field_any_position.
+
 Theorem C18_zero_sized_gate_cluster : forall fx self m nodes links g,
   has_dup_binding (tc_args self) = false -> In g (md_gates m) -> fd_kard g = Cluster 0 ->
   transform_module fx self m nodes links = Err K_INVALID_GATE.
